@@ -522,3 +522,169 @@ pub fn borrow_step(sim: &mut Sim, ctx: &mut Ctx, st: &Integ) {
         crate::actors::submit(sim, ctx, &mut tx);
     }
 }
+
+/// A receivership (liquidation or forced deleverage) bracket whose seizure leg is a VENUE
+/// withdrawal: the holder's venue collateral is made too cheap first (the venue bank shares its
+/// feed with an ordinary bank), then [init record,] start, repay, <venue>_withdraw, end.
+pub fn bracket_step(sim: &mut Sim, ctx: &mut Ctx, st: &Integ) {
+    use crate::actors::{active_balances, i80, liab_amount_u64, pick_amount};
+    use fixed::types::I80F48;
+    let gi = 0usize;
+    let g = ctx.world.groups[gi].clone();
+    // a registered holder with a venue position and a debt in an ordinary bank
+    let mut cands = Vec::new();
+    for (ui, _auth, ma) in st.holders.iter() {
+        if !ctx.world.users[*ui].maccounts.iter().any(|(_, k)| k == ma) {
+            continue;
+        }
+        let Some(acc) = model::account_of(&sim.store, ma) else { continue };
+        let bals = active_balances(&acc);
+        let venue_pos: Vec<usize> = st
+            .banks
+            .iter()
+            .enumerate()
+            .filter(|(_, b)| bals.iter().any(|p| p.bank_pk == b.keys.bank && i80(p.asset_shares) >= I80F48::ONE))
+            .map(|(i, _)| i)
+            .collect();
+        let debts: Vec<Balance> = bals.iter().filter(|p| i80(p.liability_shares) >= I80F48::ONE && ctx.world.bank_info(&p.bank_pk).is_some()).cloned().collect();
+        if !venue_pos.is_empty() && !debts.is_empty() {
+            cands.push((*ui, *ma, venue_pos, debts));
+        }
+    }
+    if cands.is_empty() {
+        return;
+    }
+    let (ui, ma, venue_pos, debts) = ctx.rng.pick(&cands).clone();
+    // Solend withdrawals are not on the bracket's allow-list in this version of the program: keep
+    // attempting them now and then (they must be refused), prefer the two kinds that are
+    let preferred: Vec<usize> = venue_pos.iter().copied().filter(|i| st.banks[*i].kind != VKind::Solend).collect();
+    let vb = if !preferred.is_empty() && ctx.rng.chance(4, 5) { st.banks[*ctx.rng.pick(&preferred)].clone() } else { st.banks[*ctx.rng.pick(&venue_pos)].clone() };
+    let lb = ctx.rng.pick(&debts).clone();
+    let Some(l_info) = ctx.world.bank_info(&lb.bank_pk).cloned() else { return };
+    sim.stats.fault("integ_bracket_attempted");
+    // every feed fresh first (a liquidator's client would crank them), venues refreshed
+    {
+        let mut f = Vec::new();
+        for e in crate::actors::act_oracle_publish(sim, ctx, &mut f) {
+            sim.apply(e);
+        }
+        for b in st.banks.iter() {
+            refresh(sim, ctx, b);
+        }
+    }
+    // make the holder unhealthy: the feed the venue bank shares with an ordinary bank drops
+    let Some(vbank) = model::bank_of(&sim.store, &vb.keys.bank) else { return };
+    let feed = vbank.config.oracle_keys[0];
+    for _ in 0..12 {
+        let Some(acc) = model::account_of(&sim.store, &ma) else { return };
+        let unhealthy = crate::refm::health(&sim.store, &acc, crate::refm::Req::Maint, sim.clock).map(|h| h.net() < model::qi(0)).unwrap_or(true);
+        if unhealthy {
+            break;
+        }
+        let now = sim.clock.unix_timestamp;
+        let Some(base) = ctx.world.groups[gi].banks.iter_mut().find(|b| b.oracle_key == feed) else { return };
+        let pct = *ctx.rng.pick(&[30u64, 50, 70, 85]);
+        let np = (base.price_micro as u128 * pct as u128 / 100).max(1) as u64;
+        base.price_micro = np;
+        let ev = match base.oracle {
+            OracleKind::Pyth => Event::SetAccount { key: base.oracle_key, account: Some(fixtures::pyth_account(base.feed_id, &crate::world::pyth_from_micro(np, base.expo, 10, 0, now))), why: "oracle_jump" },
+            OracleKind::Swb => Event::SetAccount { key: base.oracle_key, account: Some(fixtures::swb_account(&crate::world::swb_from_micro(np, 10, now))), why: "oracle_jump" },
+            OracleKind::Fixed => return,
+        };
+        sim.apply(ev);
+    }
+    let deleverage = ctx.rng.chance(1, 3);
+    let others: Vec<usize> = (0..ctx.world.users.len()).filter(|x| *x != ui).collect();
+    if others.is_empty() {
+        return;
+    }
+    let ruser = ctx.world.users[*ctx.rng.pick(&others)].clone();
+    let receiver = if deleverage { g.admins.risk } else { ruser.authority };
+    let Some(dst_ta) = ruser.tokens.get(&vb.keys.mint).copied() else { return };
+    let Some(l_bank) = model::bank_of(&sim.store, &lb.bank_pk) else { return };
+    let debt = liab_amount_u64(&l_bank, &lb);
+    let src_ta = if deleverage {
+        let key = Pubkey::new_from_array({
+            let mut b = g.admins.risk.to_bytes();
+            let m = l_info.keys.mint.to_bytes();
+            for i in 0..32 {
+                b[i] ^= m[i].rotate_left(3);
+            }
+            b
+        });
+        if sim.store.get(&key).is_none() {
+            let Some(mint_acc) = sim.store.get(&l_info.keys.mint).cloned() else { return };
+            set(sim, key, fixtures::token_account(&l_info.keys.mint, &mint_acc, &g.admins.risk, debt.saturating_mul(2).saturating_add(1_000_000)), "fixture_risk_admin_funding");
+        }
+        key
+    } else {
+        let Some(k) = ruser.tokens.get(&l_info.keys.mint).copied() else { return };
+        k
+    };
+    let Some(acc) = model::account_of(&sim.store, &ma) else { return };
+    let rm = crate::world::risk_metas(&sim.store, &ma, None, None);
+    let repay_amt = pick_amount(ctx.rng, debt.max(1));
+    // value-matched seizure around the premium boundary, in the venue's own units
+    let shares = acc.lending_account.balances.iter().find(|p| p.active != 0 && p.bank_pk == vb.keys.bank).map(|p| i80(p.asset_shares).to_num::<u64>()).unwrap_or(0);
+    let units = {
+        let va = crate::refm::read_oracle(&sim.store, &vbank, sim.clock).ok();
+        let vl = crate::refm::read_oracle(&sim.store, &l_bank, sim.clock).ok();
+        match (va, vl) {
+            (Some(va), Some(vl)) if va.ema.price > model::qi(0) => {
+                use num_traits::ToPrimitive;
+                let rv = model::qu(repay_amt) * &vl.ema.price / model::pow10(l_bank.mint_decimals as u32);
+                let prem = *ctx.rng.pick(&[90u64, 100, 100, 103, 105, 106, 110, 126, 200]);
+                let w = rv * model::qu(prem) / model::qu(100) * model::pow10(crate::refm::balance_decimals(&vbank) as u32) / &va.ema.price;
+                w.floor().to_integer().to_u64().unwrap_or(shares).min(shares.saturating_add(1))
+            }
+            _ => pick_amount(ctx.rng, shares.max(1)),
+        }
+    }
+    .max(1);
+    // Drift's instruction takes underlying tokens, the others the venue's collateral units
+    let w_arg = if vb.kind == VKind::Drift {
+        let f = 10u64.saturating_pow(9u32.saturating_sub(vb.decimals as u32)).max(1);
+        (units / f).max(1)
+    } else {
+        units
+    };
+    let mut ixs = Vec::new();
+    if acc.liquidation_record == Pubkey::default() {
+        ixs.push(ix::init_liq_record(ma, ctx.world.payer));
+    }
+    ixs.push(if deleverage { ix::start_deleverage(g.key, ma, receiver, rm.clone()) } else { ix::start_liquidation(ma, receiver, rm.clone()) });
+    let r_ix = ix::repay(&l_info.keys, ma, receiver, src_ta, repay_amt, None);
+    let w_ix = ix::venue_withdraw(&vb, ma, receiver, dst_ta, w_arg, None, rm.clone());
+    if ctx.rng.chance(1, 2) {
+        ixs.push(r_ix);
+        ixs.push(w_ix);
+    } else {
+        ixs.push(w_ix);
+        ixs.push(r_ix);
+    }
+    ixs.push(if deleverage { ix::end_deleverage(g.key, ma, receiver, rm.clone()) } else { ix::end_liquidation(ma, receiver, ctx.world.fee_wallet, rm) });
+    if deleverage && ctx.rng.chance(3, 4) {
+        // a daily limit around anything: sometimes tiny, sometimes generous
+        let lim = *ctx.rng.pick(&[1u32, 1, 10, 10, 1000, 1_000_000]);
+        sim.apply(Event::Tx(Tx::one("group_admin", ix::configure_deleverage_withdrawal_limit(g.key, g.admins.admin, lim))));
+    }
+    if let Some(o) = sim.apply(Event::Tx(Tx::many(if deleverage { "risk_admin" } else { "receiver" }, ixs))) {
+        if o.ok() {
+            sim.stats.fault(if deleverage { "integ_deleverage_bracket_with_venue_leg_ok" } else { "integ_liquidation_bracket_with_venue_leg_ok" });
+        } else {
+            sim.stats.fault(match o.code() {
+                Some(6068) => "integ_bracket_refused_healthy_account",
+                Some(6009) => "integ_bracket_refused_init_health",
+                Some(6042) => "integ_bracket_refused_unauthorized",
+                Some(6080) => "integ_bracket_refused_paused",
+                Some(c) if (6200..6500).contains(&c) => "integ_bracket_refused_venue_code",
+                Some(c) if c >= 0x5717 && c <= 0x5719 => "integ_bracket_refused_stale_venue",
+                Some(c) if c >= 6085 && c <= 6110 => "integ_bracket_refused_receivership_rule",
+                _ => "integ_bracket_refused_other",
+            });
+            if std::env::var("MFISIM_DEBUG_BRACKET").is_ok() {
+                eprintln!("bracket refused: {:?} ix {:?}", o.code(), o.result.as_ref().err().map(|e| (e.ix_index, e.msg.clone())));
+            }
+        }
+    }
+}
